@@ -7,7 +7,9 @@
 //                       unchanged; for the fd entry points the CALLER's descriptor is still open, at the same offset,
 //                       readable, and a second scan on it gives the same trace. Then missing file / closed descriptor.
 //                       output: <id> E <script>=<trace>;R=<ok|what broke>|...(8)^<script>=...^N=<4 result codes>;msgs=0;R=ok
-//   masks=<input>:<N>[:<w>]  (w: input holding the same bytes as ONE block; its yr_rules_scan_mem trace is appended as !W=...)
+//   masks=<input>:<N>[:<w>[:<p>]]  (w: input holding the same bytes as ONE block; its yr_rules_scan_mem trace is appended as !W=...;
+//                       p: input with OTHER data: after every interrupted run it is scanned with the same scanner and the same iterator
+//                       object (last_error not reset); !P=<1|0 per mask> says whether that scan equals yr_rules_scan_mem of p)
 //                       for EVERY subset of the first N iterator calls (counted over the whole interrupted scan, calls
 //                       made by rule evaluation included) answer "not ready" at exactly those calls and repeat
 //                       yr_scanner_scan_mem_blocks until it no longer returns ERROR_BLOCK_NOT_READY
@@ -145,13 +147,63 @@ static void do_entry_points(const char* id, YR_RULES* rules, INPUT* in, int flag
     yr_scanner_destroy(sc);
     printf("^N=%s,%s,%s,%s;msgs=%d;R=%s", errname(a), errname(b), errname(c), errname(d), r.t.nmsg, count_fds() == fds0 ? "ok" : "fd-leak");
   }
+  // the same bytes reached through other NAMES of the file: symlink, symlink chain, relative path, "..", hard link, very long
+  // path, directory without the read bit, /proc/self/fd/N; and a directory (documented error)
+  {
+    char dir[600], base[700], nm[9][4200]; const char* label[9]; int nn = 0;
+    const char* sd = getenv("VF_SCRATCH");
+    snprintf(dir, sizeof dir, "%s/names_%d_%s", sd ? sd : "/work/out", (int) getpid(), id);
+    mkdir(dir, 0755);
+    snprintf(base, sizeof base, "%s/file.bin", dir);
+    FILE* f = fopen(base, "wb"); if (!f) DIE("cannot write %s", base);
+    if (in->size) fwrite(in->data, 1, in->size, f);
+    fclose(f);
+    char l1[700], l2[700], hl[700], sub[700], xd[700], xf[760];
+    snprintf(l1, sizeof l1, "%s/link1", dir); snprintf(l2, sizeof l2, "%s/link2", dir); snprintf(hl, sizeof hl, "%s/hard", dir);
+    snprintf(sub, sizeof sub, "%s/sub", dir); snprintf(xd, sizeof xd, "%s/xonly", dir); snprintf(xf, sizeof xf, "%s/f", xd);
+    if (symlink(base, l1) == 0) { label[nn] = "symlink"; snprintf(nm[nn++], 4200, "%s", l1); }
+    if (symlink("link1", l2) == 0) { label[nn] = "symlink-chain"; snprintf(nm[nn++], 4200, "%s", l2); }
+    char cwd[600];
+    if (getcwd(cwd, sizeof cwd) && !strncmp(base, cwd, strlen(cwd)) && base[strlen(cwd)] == '/')
+    { label[nn] = "relative"; snprintf(nm[nn++], 4200, "%s", base + strlen(cwd) + 1); }
+    if (mkdir(sub, 0755) == 0) { label[nn] = "dotdot"; snprintf(nm[nn++], 4200, "%s/../file.bin", sub); }
+    if (link(base, hl) == 0) { label[nn] = "hardlink"; snprintf(nm[nn++], 4200, "%s", hl); }
+    {
+      label[nn] = "long-path";
+      size_t o = snprintf(nm[nn], 4200, "%s", dir);
+      while (o < 3800) o += snprintf(nm[nn] + o, 4200 - o, "/.");
+      snprintf(nm[nn] + o, 4200 - o, "/file.bin"); nn++;
+    }
+    if (mkdir(xd, 0755) == 0 && link(base, xf) == 0 && chmod(xd, 0311) == 0) { label[nn] = "dir-without-read-bit"; snprintf(nm[nn++], 4200, "%s", xf); }
+    int pfd = open(base, O_RDONLY);
+    if (pfd >= 0) { label[nn] = "proc-self-fd"; snprintf(nm[nn++], 4200, "/proc/self/fd/%d", pfd); }
+    label[nn] = "directory"; snprintf(nm[nn++], 4200, "%s", dir);
+    printf("^F=");
+    for (int k = 0; k < nn; k++)
+    {
+      YR_SCANNER* sc = NULL;
+      yr_scanner_create(rules, &sc);
+      yr_scanner_set_flags(sc, flags); yr_scanner_set_timeout(sc, timeout); yr_scanner_set_callback(sc, vf_scan_cb, &r.t);
+      cb_script(&r.t, "-"); tr_reset(&r.t);
+      int rc = yr_rules_scan_file(rules, nm[k], flags, vf_scan_cb, &r.t, timeout);
+      tr_rc(&r.t, rc);
+      printf("%s%s:%s,", k ? "|" : "", label[k], r.t.buf);
+      cb_script(&r.t, "-"); tr_reset(&r.t);
+      rc = yr_scanner_scan_file(sc, nm[k]);
+      tr_rc(&r.t, rc);
+      printf("%s", r.t.buf);
+      yr_scanner_destroy(sc);
+    }
+    if (pfd >= 0) close(pfd);
+    chmod(xd, 0755); unlink(xf); rmdir(xd); rmdir(sub); unlink(hl); unlink(l2); unlink(l1); unlink(base); rmdir(dir);
+  }
   printf("\n");
   free(copy); free(scripts);
   if (made) unlink(path);
 }
 
 #define MAXCLASS 36
-static void do_masks(const char* id, YR_RULES* rules, INPUT* in, int flags, int timeout, int N, INPUT* whole)
+static void do_masks(const char* id, YR_RULES* rules, INPUT* in, int flags, int timeout, int N, INPUT* whole, INPUT* probe)
 {
   static RUN r;
   static char* cls[MAXCLASS];
@@ -160,7 +212,17 @@ static void do_masks(const char* id, YR_RULES* rules, INPUT* in, int flags, int 
   char* cmap = (char*) malloc(total + 1);
   char* calls = (char*) malloc(total + 1);
   char* evf = (char*) malloc(total + 1);
+  char* prb = (char*) malloc(total + 1);
+  char* want = NULL;
   YR_SCANNER* sc = NULL;
+  if (probe)
+  {
+    // what a scan of the probe input must report: yr_rules_scan_mem of its bytes
+    r.t.rules = rules; cb_script(&r.t, "-"); tr_reset(&r.t);
+    int rcw = yr_rules_scan_mem(rules, probe->data, probe->size, flags, vf_scan_cb, &r.t, timeout);
+    tr_rc(&r.t, rcw);
+    want = strdup(r.t.buf);
+  }
   // ONE scanner for all masks (the interrupted scans follow each other on it, as a long-running user would do)
   if (yr_scanner_create(rules, &sc) != ERROR_SUCCESS) DIE("scanner create");
   yr_scanner_set_flags(sc, flags); yr_scanner_set_timeout(sc, timeout); yr_scanner_set_callback(sc, vf_scan_cb, &r.t);
@@ -184,19 +246,40 @@ static void do_masks(const char* id, YR_RULES* rules, INPUT* in, int flags, int 
     for (c = 0; c < ncls; c++) if (!strcmp(cls[c], r.t.buf)) break;
     if (c == ncls) { if (ncls == MAXCLASS) DIE("too many classes"); cls[ncls++] = strdup(r.t.buf); }
     cmap[m] = B36[c]; calls[m] = B36[n < 36 ? n : 35]; evf[m] = ev ? '1' : '0';
+    int stale = r.it.last_error;
     if (rc == ERROR_BLOCK_NOT_READY)
     {
       // never completed: do not let the suspended state reach the next mask through a bug under test
       yr_scanner_destroy(sc);
       if (yr_scanner_create(rules, &sc) != ERROR_SUCCESS) DIE("scanner create");
       yr_scanner_set_flags(sc, flags); yr_scanner_set_timeout(sc, timeout); yr_scanner_set_callback(sc, vf_scan_cb, &r.t);
+      stale = ERROR_SUCCESS;
+    }
+    prb[m] = '-';
+    if (probe)
+    {
+      // the SAME scanner and the SAME iterator object, re-pointed at OTHER data, last_error as the interrupted scan left it:
+      // nothing of that scan may show (no stale match, no skipped block)
+      it_init(&r.it, &r.ic, probe, NULL, sc, 0);
+      r.it.last_error = stale;
+      cb_script(&r.t, "-"); tr_reset(&r.t);
+      int rc2 = yr_scanner_scan_mem_blocks(sc, &r.it);
+      tr_rc(&r.t, rc2);
+      prb[m] = strcmp(r.t.buf, want) ? '0' : '1';
+      if (rc2 == ERROR_BLOCK_NOT_READY)
+      {
+        yr_scanner_destroy(sc);
+        if (yr_scanner_create(rules, &sc) != ERROR_SUCCESS) DIE("scanner create");
+        yr_scanner_set_flags(sc, flags); yr_scanner_set_timeout(sc, timeout); yr_scanner_set_callback(sc, vf_scan_cb, &r.t);
+      }
     }
   }
   yr_scanner_destroy(sc);
-  cmap[total] = calls[total] = evf[total] = 0;
+  cmap[total] = calls[total] = evf[total] = prb[total] = 0;
   printf("%s M %d", id, ncls);
   for (int c = 0; c < ncls; c++) { printf("!%s", cls[c]); free(cls[c]); }
   printf("!%s!%s!%s", cmap, calls, evf);
+  if (probe) printf("!P=%s", prb);
   if (whole)
   {
     // the same bytes through yr_rules_scan_mem
@@ -206,7 +289,7 @@ static void do_masks(const char* id, YR_RULES* rules, INPUT* in, int flags, int 
     printf("!W=%s", r.t.buf);
   }
   printf("\n");
-  free(cmap); free(calls); free(evf);
+  free(cmap); free(calls); free(evf); free(prb); free(want);
 }
 
 int main()
@@ -231,9 +314,9 @@ int main()
     if (ep) do_entry_points(toks[0], rules, &ins[atoi(ep)], flags, timeout, field(toks, n, "cbs"));
     else if (mk)
     {
-      int i = 0, N = 0, wi = -1;
-      if (sscanf(mk, "%d:%d:%d", &i, &N, &wi) < 2 || N > 16) DIE("bad masks");
-      do_masks(toks[0], rules, &ins[i], flags, timeout, N, wi >= 0 ? &ins[wi] : NULL);
+      int i = 0, N = 0, wi = -1, pi = -1;
+      if (sscanf(mk, "%d:%d:%d:%d", &i, &N, &wi, &pi) < 2 || N > 16) DIE("bad masks");
+      do_masks(toks[0], rules, &ins[i], flags, timeout, N, wi >= 0 ? &ins[wi] : NULL, pi >= 0 ? &ins[pi] : NULL);
     }
     else printf("%s BADTASK\n", toks[0]);
     free_inputs(ins, nin);
